@@ -278,7 +278,7 @@ def r09d(run):
     wrong = {}
     total = 0
     for op in ("&", "|", "^", "~"):
-        for n_ in range(0, 4):
+        for n_ in range(0, 5 if run.thorough else 4):         # thorough: argument lists of up to four
             for args in itertools.product((X, Y, ANY), repeat=n_):
                 if op == "~" and n_ != 1:
                     continue
